@@ -178,7 +178,7 @@ open RsslVerif.Model.PipelineTyper RsslVerif.Gen.PipelineTables
     the block is processed, not against a table built earlier. -/
 theorem typer_shape_as_modelled :
     typerShape = ⟨true, true, true, true, true, true, true, true, true, true, true, true, true, true, true, true, true,
-      true, true, true, true⟩ := by decide
+      true, true, true, true, true, true⟩ := by decide
 
 /-- everything pipelines.rs may reach through the typer context: the context itself (handed on to the expression
     checker), the module (handed to the constant evaluator), the function registry (read only) and the pipeline list -/
